@@ -450,12 +450,22 @@ fn run(args: Args) -> Report {
             m.rep.count("cases[bound-sweep]", n);
         }
         for c in CHAINS {
-            for n in [10usize, 130, 1000] {
+            // lengths below, around and beyond the parser's chain bound (2048 links); a chain may be the
+            // first thing in the file or follow a comment / another definition (what the tree builder has
+            // already emitted matters when a construct is abandoned half-way)
+            for n in [10usize, 130, 1000, 2040, 2047, 2048, 2049, 2050, 2100, 3000, 4100] {
                 k += 1;
                 if k % args.nshards != args.shard {
                     continue;
                 }
-                m.case("chain-inproc", &textgen::chain_text(c, n));
+                let text = textgen::chain_text(c, n);
+                m.case("chain-inproc", &text);
+                if n >= 2040 {
+                    for lead in ["// lead\n", "pub type Lead { Lead }\n\n", "/// doc\n", "const lead = 1\n", "  \n"] {
+                        m.case("chain-inproc-after-lead", &format!("{lead}{text}"));
+                        m.case("chain-inproc-before-tail", &format!("{text}\nfn tail() {{ 1 }}\n"));
+                    }
+                }
             }
         }
     }
